@@ -28,6 +28,13 @@ THEOREMS = [
     "HedVerif.C18.backup_history_restore",
     "HedVerif.C18.restore_tasks_only",
     "HedVerif.C18.restore_tasks_complete",
+    "HedVerif.C18.restore_never_touches_backup",
+    "HedVerif.C18.remodel_never_touches_backup",
+    "HedVerif.C18.restore_after_crashed_restore",
+    "HedVerif.C18.remodel_from_backup",
+    "HedVerif.C18.backups_independent",
+    "HedVerif.C18.other_backup_still_listed",
+    "HedVerif.C18.incomplete_backup_blocks_manager",
     "HedVerif.C18.remodel_idempotent",
     "HedVerif.C18.remodelCore_idempotent",
     "HedVerif.C18.no_overwrite",
@@ -131,8 +138,10 @@ class FakeNow:
 # ----------------------------------------------------------------------- crash-injecting wrappers
 
 class Crasher:
-    def __init__(self, k, base):
+    def __init__(self, k, base, data_root=None):
         self.k, self.n, self.log, self.base = k, 0, [], base
+        self.bases = [base] + ([os.path.realpath(data_root)] if data_root else [])
+        self.csv_order = []
 
     def tick(self, kind, path, size=None):
         if self.n == self.k:
@@ -176,8 +185,8 @@ def install(bmmod, cr):
     """patch the module attributes of backup_manager (in the child only)"""
     def makedirs(path, mode=0o777, exist_ok=False):
         full = os.path.realpath(path)
-        base = cr.base
-        if not (full + "/").startswith(base + "/"):
+        base = next((b for b in cr.bases if (full + "/").startswith(b + "/")), None)
+        if base is None:
             base = full
             while not os.path.isdir(base):
                 base = os.path.dirname(base)
@@ -219,6 +228,26 @@ def install(bmmod, cr):
         fp.write(text[:h])
         fp.write(text[h:])
 
+    import pandas as pd
+    real_to_csv = pd.DataFrame.to_csv
+
+    def to_csv(self, path_or_buf=None, *a, **kw):
+        if not isinstance(path_or_buf, str):
+            return real_to_csv(self, path_or_buf, *a, **kw)
+        data = real_to_csv(self, None, *a, **kw).encode()
+        cr.csv_order.append(comps(path_or_buf))
+        cr.tick("create", path_or_buf)
+        f = open(path_or_buf, "wb", buffering=0)
+        h = len(data) // 2
+        cr.tick("append", path_or_buf, h)
+        f.write(data[:h])
+        cr.tick("append", path_or_buf, len(data) - h)
+        f.write(data[h:])
+        cr.tick("close", path_or_buf)
+        f.close()
+
+    if cr.bases[1:]:
+        pd.DataFrame.to_csv = to_csv
     bmmod.os = Proxy(os, makedirs=makedirs)
     bmmod.shutil = Proxy(shutil, copy2=copy, copy=copy, copyfile=copy)
     bmmod.json = Proxy(json, dump=dump)
@@ -246,10 +275,11 @@ def forked(fn, outpath):
 
 # ------------------------------------------------------------------------------------ scenarios
 
-DIRS = ["sub-01", "sub-02", "ses-1", "eeg", "a b", "x}y", "q,{z", "derivatives", "remodel", "d:e", 'w"q', "b\\s"]
+DIRS = ["sub-01", "sub-02", "ses-1", "eeg", "a b", "x}y", "q,{z", "derivatives", "remodel", "d:e", 'w"q', "b\\s", "\u00e9\u4e2d", "\U0001F600 d"]
 BASES = ["sub-01_task-go_events.tsv", "task_go_run-1_events.tsv", "task_stop_events.tsv", "x_task_go_task_stop_events.tsv",
          "sub-02_task-stop_events.tsv", "run-2_Events.TSV", "participants.tsv", "README", "notes}.txt", 'odd"name.tsv',
-         "events.tsv", "t,a:b_events.tsv", "back\\slash_events.tsv", "task_nosuch.dat"]
+         "events.tsv", "t,a:b_events.tsv", "back\\slash_events.tsv", "task_nosuch.dat",
+         "sub-\u00e9_task-g\u00f6_events.tsv", "\U0001F600_events.tsv", "t\tab\nnl.tsv", "\x7f\x01.dat"]
 CELLS = ["go", "stop", "n/a", "1", "2", "17", "0.5", "2.25", "x y", "left", "Red", "a-b"]
 COLS = ["onset", "duration", "trial_type", "value", "resp", "kind2"]
 
@@ -486,6 +516,30 @@ def sel_name(rel):
     return rel[-1].lower().endswith("events.tsv") and "remodel" not in rel[:-1]
 
 
+def bids_task(name):
+    """independent re-statement of io_util.get_task_from_file"""
+    stem = os.path.splitext(name)[0].strip()
+    pos = stem.lower().find("task-")
+    if pos < 0:
+        return ""
+    rest = stem[pos + 5:]
+    for i, ch in enumerate(rest):
+        if ch in "_.":
+            return rest[:i]
+    return rest
+
+
+def task_ok(tasks, rel):
+    """does `run_remodel -t tasks` rewrite this (selected) file"""
+    if not tasks:
+        return True
+    t = bids_task(rel[-1])
+    return t != "" and (tasks[0] == "*" or t in tasks)
+
+
+REMODEL_TASKS = [[], [], [], ["go"], ["stop", "go"], ["*"], ["nosuch"], ["rest", "stop"]]
+
+
 def task_hit(tasks, rel):
     return (not tasks) or any(("task_" + t) in rel[-1] for t in tasks)
 
@@ -505,7 +559,8 @@ def gen_task_history(rng, idx):
     for t, names in TASK_FILES.items():
         for nm in names[:rng.randint(1, 2)]:
             files[tuple(rng.choice(dirs) + [nm])] = gen_tsv(rng, False, floats=False)
-    for nm in ["x_task_go_task_stop_events.tsv", "sub-01_task-go_events.tsv", "participants.tsv"]:
+    for nm in ["x_task_go_task_stop_events.tsv", "sub-01_task-go_events.tsv", "participants.tsv",
+               "sub-02_task-stop_events.tsv", "sub-03_task_rest_task-rest_events.tsv"]:
         if rng.random() < 0.6:
             files[tuple(rng.choice(dirs) + [nm])] = gen_tsv(rng, False, floats=False)
     tree = [[list(k), v.decode("latin-1")] for k, v in sorted(files.items())]
@@ -530,6 +585,8 @@ def gen_task_history(rng, idx):
         ops.append({"op": "restore", "tasks": tasks, "via": rng.choice(["manager", "main"])})
         if len(ops) >= 4:
             break
+    if len(ops) < 8 and rng.random() < 0.5:
+        ops.append({"op": "remodel", "ns": True, "tasks": rng.choice(REMODEL_TASKS)})
     return {"kind": "history", "tree": tree, "files": None if mode == "main" else flist, "mode": mode,
             "name": rng.choice(["default_back", "b1"]), "ops": ops[:8]}
 
@@ -573,9 +630,10 @@ def gen_history(rng, idx=1):
                                 ["go_run-1"]])
             ops.append({"op": "restore", "tasks": tasks, "via": rng.choice(["manager", "main"])})
         else:
-            ops.append({"op": "remodel", "ns": rng.random() < 0.5})
+            tk = rng.choice(REMODEL_TASKS)
+            ops.append({"op": "remodel", "ns": rng.random() < 0.5, "tasks": tk})
             if rng.random() < 0.6:
-                ops.append({"op": "remodel", "ns": rng.random() < 0.5})
+                ops.append({"op": "remodel", "ns": rng.random() < 0.5, "tasks": tk})
     return {"kind": "history", "tree": tree, "files": files, "mode": mode, "name": name, "ops": ops[:8]}
 
 
@@ -628,7 +686,7 @@ def history_prepare(ctx, env, spec, slot):
         elif o["op"] == "restore":
             mops.append({"op": "restore", "tasks": o["tasks"]})
         else:
-            mops.append({"op": "remodel"})
+            mops.append({"op": "remodel", "tasks": o.get("tasks", [])})
     req = {"op": "c18.history", "dataRoot": comps(root), "backups": comps(backups), "name": name,
            "stamp": STAMP, "tree": tree0, "files": files, "T": T, "ops": mops}
     return {"spec": spec, "tmp": tmp, "req": req, "loc": (root, model_path, name, case, view, keys, rec, orig, bsnap0,
@@ -688,7 +746,8 @@ def history_execute(ctx, env, st, ans):
                 else:
                     run_remodel_restore.main([root, "-bn", name] + (["-t"] + o["tasks"] if o["tasks"] else []))
             else:
-                run_remodel.main([root, model_path, "-bn", name] + (["-ns"] if o["ns"] else []))
+                run_remodel.main([root, model_path, "-bn", name] + (["-ns"] if o["ns"] else []) +
+                                 (["-t"] + o["tasks"] if o.get("tasks") else []))
         except env.HedFileError as e:
             err = e.code
         except Exception as e:
@@ -727,14 +786,22 @@ def history_execute(ctx, env, st, ans):
                 if not hit and after.get(f) != before.get(f):
                     ctx.violation("task-restore-touched-unselected-file", {**case, "at": i}, {"file": "/".join(f)})
         if o["op"] == "remodel":
+            tk = o.get("tasks", [])
             for f in rec:
-                want = expected_T(orig[f]) if sel_name(f) else orig[f]
+                if sel_name(f) and task_ok(tk, f) and (f in before or task_hit(tk, f)):
+                    want = expected_T(orig[f])          # rewritten from the backed-up original (existing files only)
+                elif task_hit(tk, f):
+                    want = orig[f]                      # restored by handle_backup
+                else:
+                    want = before.get(f)                # not part of this run
                 if after.get(f) != want:
-                    ctx.violation("remodel-not-from-backed-up-original", {**case, "at": i}, {"file": "/".join(f)})
-            if prev_remodel is not None and {k: v for k, v in prev_remodel.items() if "summaries" not in k} != \
+                    ctx.violation("remodel-not-from-backed-up-original", {**case, "at": i}, {"file": "/".join(f), "tasks": tk})
+            if prev_remodel is not None and prev_remodel[0] == tk and \
+                    {k: v for k, v in prev_remodel[1].items() if "summaries" not in k} != \
                     {k: v for k, v in after.items() if "summaries" not in k}:
-                ctx.violation("remodel-twice-differs-from-once", {**case, "at": i}, {})
-            prev_remodel = after
+                ctx.violation("remodel-twice-differs-from-once", {**case, "at": i}, {"tasks": tk})
+            prev_remodel = (tk, after)
+            ctx.count("remodel-with-tasks" if tk else "remodel-all")
         else:
             prev_remodel = None
         if dis:
@@ -756,18 +823,177 @@ def history_execute(ctx, env, st, ans):
     ctx.check_time()
 
 
+# ------------------------------------------------------- crashes inside restore_backup / run_remodel.main
+
+def gen_opcrash(rng, i):
+    tree = gen_tree(rng, allow_odd=False, in_derivatives=False)
+    extra = {}
+    for nm in rng.sample(["task_go_events.tsv", "sub-01_task-go_events.tsv", "sub-02_task-stop_events.tsv",
+                          "x_task_stop_task-go_events.tsv"], rng.randint(1, 3)):
+        extra[tuple(rng.choice([[], ["sub-01"], ["sub-02", "ses-1"]]) + [nm])] = gen_tsv(rng, False, floats=False)
+    have = {tuple(t[0]) for t in tree}
+    tree += [[list(k), v.decode("latin-1")] for k, v in sorted(extra.items()) if k not in have]
+    rels = [t[0] for t in tree]
+    damage = []
+    for r in rels:
+        q = rng.random()
+        if q < 0.35:
+            damage.append({"op": "modify", "path": r, "bytes": gen_tsv(rng, True).decode("latin-1")})
+        elif q < 0.6:
+            damage.append({"op": "delete", "path": r if len(r) == 1 or rng.random() < 0.6 else r[:1]})
+    kind = "restore" if i % 2 == 0 else "remodel"
+    tasks = rng.choice([[], [], ["go"], ["stop", "go"], ["nosuch", "stop"]]) if kind == "restore" else rng.choice(REMODEL_TASKS)
+    return {"kind": "opcrash", "tree": tree, "name": rng.choice(["default_back", "b1"]), "damage": damage,
+            "target": kind, "tasks": tasks, "via": rng.choice(["manager", "main"])}
+
+
+def opcrash_child(env, st, k):
+    from hed.tools.remodeling.cli import run_remodel, run_remodel_restore
+    spec, root = st["spec"], st["root"]
+
+    def fn():
+        cr = Crasher(k, st["backups"], data_root=root)
+        install(env.bmmod, cr)
+        if spec["target"] == "restore":
+            if spec["via"] == "manager":
+                env.BM(root).restore_backup(spec["name"], spec["tasks"], verbose=False)
+            else:
+                run_remodel_restore.main([root, "-bn", spec["name"]] + (["-t"] + spec["tasks"] if spec["tasks"] else []))
+        else:
+            run_remodel.main([root, st["model_path"], "-bn", spec["name"], "-ns"] +
+                             (["-t"] + spec["tasks"] if spec["tasks"] else []))
+        return {"log": cr.log, "order": cr.csv_order}
+    return fn
+
+
+def opcrash_prepare(ctx, env, spec, slot):
+    tmp = os.path.join(env.tmp, f"o{slot}")
+    shutil.rmtree(tmp, ignore_errors=True)
+    os.makedirs(tmp)
+    root, pristine = os.path.join(tmp, "ds"), os.path.join(tmp, "pristine")
+    build(root, spec["tree"])
+    model_path = os.path.join(tmp, "rename.json")
+    with open(model_path, "w") as f:
+        json.dump(RENAME, f)
+    orig = snap(root)
+    files = [t[0] for t in spec["tree"]]                      # everything is backed up
+    bm = env.BM(root)
+    bm.create_backup([os.path.join(root, *f) for f in files], spec["name"])
+    backups = bm.backups_path
+    for o in spec["damage"]:
+        p = os.path.join(root, *o["path"])
+        if o["op"] == "modify" and not os.path.isdir(p):
+            os.makedirs(os.path.dirname(p), exist_ok=True)
+            with open(p, "wb") as f:
+                f.write(o["bytes"].encode("latin-1"))
+        elif o["op"] == "delete":
+            if os.path.isdir(p):
+                shutil.rmtree(p)
+            elif os.path.exists(p):
+                os.remove(p)
+    shutil.copytree(root, pristine, symlinks=True)
+    st = {"spec": spec, "tmp": tmp, "root": root, "pristine": pristine, "backups": backups, "model_path": model_path,
+          "orig": orig, "rec": {tuple(f) for f in files}}
+    out = os.path.join(tmp, "child.json")
+    code = forked(opcrash_child(env, st, BIG), out)
+    res = json.load(open(out)) if code == 0 else {"exc": f"exit{code}"}
+    st["trace"] = res
+    st["whole"] = snap(root)
+    T = [[b2l(orig[f]), b2l(expected_T(orig[f]))] for f in sorted(st["rec"]) if sel_name(f)]
+    shutil.rmtree(root)
+    shutil.copytree(pristine, root, symlinks=True)
+    st["req"] = {"op": "c18.opcrash", "dataRoot": comps(root), "backups": comps(backups), "name": spec["name"],
+                 "stamp": STAMP, "tree": model_tree([root]), "T": T, "tasks": spec["tasks"], "kind": spec["target"],
+                 "order": [p[len(comps(root)):] for p in res.get("order", [])]}
+    return st
+
+
+def opcrash_cases(ctx, env, specs, only_k=None):
+    for lo in range(0, len(specs), 40):
+        sts = [opcrash_prepare(ctx, env, sp, lo + i) for i, sp in enumerate(specs[lo:lo + 40])]
+        answers = mbatch(ctx, [st["req"] for st in sts])
+        for st, ans in zip(sts, answers):
+            try:
+                opcrash_execute(ctx, env, st, ans, only_k)
+            finally:
+                shutil.rmtree(st["tmp"], ignore_errors=True)
+
+
+def opcrash_execute(ctx, env, st, ans, only_k=None):
+    spec, root, pristine, orig, rec = st["spec"], st["root"], st["pristine"], st["orig"], st["rec"]
+    case = dict(spec)
+    res = st["trace"]
+    root_c = comps(root)
+    if "bad-op" in ans or "scan-err" in ans:
+        ctx.disagree("opcrash: model backup is listed", case, ans, None)
+        return
+    if "exc" in res:
+        ctx.disagree("restore/remodel completes", case, ans.get("whole"), res)
+        return
+    trace = res["log"]
+    if trace != ans["steps"]:
+        ctx.disagree("restoreSteps/remodelSteps = primitive steps of restore_backup / run_remodel.main", case,
+                     ans["steps"], trace)
+    if spec["target"] == "remodel":
+        present = snap(pristine)
+        want = sorted(f for f in rec if sel_name(f) and task_ok(spec["tasks"], f) and
+                      (f in present or task_hit(spec["tasks"], f)))
+        got = sorted(tuple(f) for f in st["req"]["order"])
+        if got != want or sorted(tuple(f) for f in ans["expect"]) != want:
+            ctx.disagree("files rewritten by remodel -t", case, ans["expect"], st["req"]["order"])
+    if "files" not in ans["whole"] or model_files(ans["whole"]["files"], root_c) != impl_files(st["whole"]):
+        ctx.disagree("Backup.restore/remodel = complete run", case, ans["whole"] if "err" in ans["whole"] else
+                     show(model_files(ans["whole"]["files"], root_c)), show(impl_files(st["whole"])))
+    n = len(trace)
+    bkey = ("derivatives", "remodel", "backups")
+    bsnap = {k: v for k, v in snap(pristine).items() if k[:3] == bkey}
+    out = os.path.join(st["tmp"], "child.json")
+    ctx.count(f"opcrash-{spec['target']}-scenarios")
+    ctx.count(f"opcrash-{spec['target']}-points", n + 1)
+    for k in (range(n + 1) if only_k is None else [only_k]):
+        shutil.rmtree(root, ignore_errors=True)
+        shutil.copytree(pristine, root, symlinks=True)
+        code = forked(opcrash_child(env, st, k), out)
+        if code != 77 and k < n:
+            ctx.disagree("crash point reached", {**case, "k": k}, 77, code)
+        after = snap(root)
+        ctx.case(("opcrash", json.dumps(spec, sort_keys=True), k), nontrivial=0 < k < n)
+        pt = ans["points"][k] if k < len(ans["points"]) else None
+        if pt is not None and model_files(pt["files"], root_c) != impl_files(after):
+            ctx.disagree("crashAfter k (restoreSteps/remodelSteps) = surviving tree", {**case, "k": k},
+                         show(model_files(pt["files"], root_c)), show(impl_files(after)))
+        # direct oracles: the backup is never written; a complete restore afterwards repairs everything
+        if {kk: v for kk, v in after.items() if kk[:3] == bkey} != bsnap:
+            ctx.violation("backup-changed-by-interrupted-" + spec["target"], {**case, "k": k}, {"step": trace[k - 1] if k else None})
+            continue
+        try:
+            env.BM(root).restore_backup(spec["name"], [], verbose=False)
+        except Exception as e:
+            ctx.violation("restore-after-interrupted-" + spec["target"] + "-raised", {**case, "k": k}, type(e).__name__)
+            continue
+        fin = snap(root)
+        for f in rec:
+            if fin.get(f) != orig[f]:
+                ctx.violation("restore-after-interrupted-" + spec["target"] + "-not-byte-identical", {**case, "k": k},
+                              {"file": "/".join(f)})
+                break
+    ctx.check_time()
+
+
 # ------------------------------------------------------------------------------------------ run
 
 def key_cases(ctx, env, n, items=None):
     """path mapping, task filter and file selection in isolation (no file system needed beyond a root)"""
     from hed.tools.util import io_util
+    from hed.tools.remodeling.cli import run_remodel
     root = os.path.join(env.tmp, "keys")
     os.makedirs(root, exist_ok=True)
     bm = env.BM(root)
     items = list(items or [])
     for _ in range(n):
         rel = [ctx.rng.choice(DIRS) for _ in range(ctx.rng.randint(0, 3))] + [ctx.rng.choice(BASES)]
-        tasks = ctx.rng.choice([[], ["go"], ["stop"], ["go", "stop"], ["nosuch"], ["go_run-1"], [""], ["", "go"], ["x", "stop", ""]])
+        tasks = ctx.rng.choice([[], ["go"], ["stop"], ["go", "stop"], ["nosuch"], ["go_run-1"], [""], ["", "go"], ["x", "stop", ""], ["*"], ["*", "go"],
+                                ["g\u00f6"]])
         items.append((rel, tasks))
     ans = mbatch(ctx, [{"op": "c18.key", "path": rel, "tasks": tasks, "stamp": STAMP} for rel, tasks in items])
     for (rel, tasks), a in zip(items, ans):
@@ -776,6 +1002,8 @@ def key_cases(ctx, env, n, items=None):
                 "split": comps(bm.get_backup_path("n", full))[len(comps(bm.backups_path)) + 2:],
                 "picked": (not tasks) or bool(bm.get_task(tasks, full)),
                 "sel": "remodel" not in rel[:-1] and io_util.check_filename(rel[-1], None, "events", [".tsv"]),
+                "bidsTask": io_util.get_task_from_file(full),
+                "taskOk": any(full in v for v in run_remodel.parse_tasks([full], tasks).values()),
                 "recordLen": len(json.dumps({bm.get_file_key(full): STAMP}, indent=4))}
         ctx.case(("key", tuple(rel), tuple(tasks)), nontrivial=len(rel) > 1)
         if a != impl:
@@ -822,13 +1050,18 @@ def run(ctx):
         specs = CORPUS + [gen_crash(ctx.rng, i) for i in range(n_crash)]
         ctx.samples.extend({"crash": sp["files"], "name": sp["name"]} for sp in specs[4:7])
         crash_cases(ctx, env, specs)
+        specs = [gen_opcrash(ctx.rng, i) for i in range(14 if ctx.quick() else 150)]
+        opcrash_cases(ctx, env, specs)
         specs = [gen_history(ctx.rng, i) for i in range(n_hist)]
         ctx.samples.extend({"history": [o["op"] for o in sp["ops"]]} for sp in specs[:3])
         history_cases(ctx, env, specs)
     ctx.notes.append("observation: a crash before the record is complete leaves a directory that makes every later "
                      "BackupManager(data_root) raise (BadBackupFormat / JSONDecodeError): 'does not list' holds, the "
                      "dataset needs manual cleanup")
-    ctx.notes.append("observation: get_task looks for 'task_<name>' while BIDS names use 'task-<name>'")
+    ctx.notes.append("observation: get_task looks for 'task_<name>' while BIDS names use 'task-<name>'; with "
+                     "run_remodel -t the restore picks 'task_<t>' names but the rewrite picks 'task-<t>' names, so a "
+                     "deleted 'task-<t>' file is neither restored nor rewritten by that run (it is rewritten from "
+                     "its backup copy whenever it exists)")
 
 
 def replay(ctx, rec):
@@ -840,6 +1073,8 @@ def replay(ctx, rec):
     with Env() as env:
         if "kind" not in spec:
             key_cases(ctx, env, 0, [(spec["path"], spec["tasks"])])
+        elif spec["kind"] == "opcrash":
+            opcrash_cases(ctx, env, [spec], only_k=case.get("k"))
         elif spec["kind"] == "crash":
             crash_cases(ctx, env, [spec], only_k=case.get("k"))
         else:
